@@ -346,6 +346,9 @@ GEN_THEOREMS = {
     "C07": ("CoreDhcp.Props.GenAlloc4", ["GEN_a4_allocate_eq", "GEN_a4_toOffset_eq"]),
 }
 GEN_THEOREMS_MORE = [
+    # the receive side of server/handle.go regenerated (unit serveloop): buffer pool, both Serve loops, the buffer hand-back in HandleMsg4/6
+    ("C16", "CoreDhcp.Props.GenServeLoop", ['GEN_serve_pool_new', 'GEN_serve_iter6_eq', 'GEN_serve_iter4_eq', 'GEN_serve_head6_eq', 'GEN_serve_head4_eq', 'GEN_serve_code_eq', 'SERVE_reads_full_buffer', 'SERVE_spawn_own_values', 'SERVE_spawn_own_values_run', 'SERVE_one_spawn_per_datagram', 'SERVE_one_spawn_per_datagram_run', 'SERVE_buffer_back_once', 'SERVE_buffer_back_once_gen', 'SERVE_no_two_owners', 'SERVE_no_two_owners_gen', 'SERVE_no_two_owners_apart', 'SERVE_read_into_unshared']),
+    ("C01", "CoreDhcp.Props.GenServeLoop", ['GEN_serve_code_eq', 'SERVE_no_two_owners_gen', 'SERVE_one_spawn_per_datagram']),
     # server/sendEthernet.go regenerated (unit ethernet)
     ("C15", "CoreDhcp.Props.GenEthernet", ['GEN_eth_layers', 'GEN_eth_sendEthernet_eq', 'C15_frame', 'C15_frame_fields', 'C15_frame_none_iff', 'GEN_eth_frame', 'GEN_eth_payload_probes', 'GEN_eth_payload_not_toBytes']),
     # server.Start, listen4/6 and Close regenerated (unit start)
